@@ -13,6 +13,7 @@ pub mod c17;
 pub mod common;
 pub mod rig;
 pub mod robs;
+pub mod rfnp;
 pub mod rtc;
 pub mod wb;
 
@@ -445,12 +446,12 @@ fn c17_check(ctx: &Ctx) -> i32 {
 
 fn c12_check(ctx: &Ctx) -> i32 {
     let budget = Duration::from_secs(ctx.tier.pick(30, 360));
-    let agg = shard_runs(ctx, "main", ctx.tier.pick(12_000, 1_000_000), budget, Duration::from_secs(30), Arc::new(|run, seed| rtc::run_one("C12", run, seed)));
+    let agg = shard_runs(ctx, "main", ctx.tier.pick(12_000, 1_000_000), budget, Duration::from_secs(30), Arc::new(|run, seed| if run % 4 == 3 { rfnp::run_one(run, seed) } else { rtc::run_one("C12", run, seed) }));
     let rep = Report {
         level: "exploration",
-        rule: "one case = one epoch history: a served object (ServerRefMut, ServerSharedMut with spawn false/true) with 1-5 clients (clones used locally and clones transferred to a second endpoint), each running 1-6 calls: &self read, &mut read-suspend-write (0-3 virtual-time suspension points, deliberately not atomic inside), #[no_cancel] variant, suspending &self call, pauses; every call carries a unique id and every mutation contributes a unique bit. Non-trivial iff at least two calls of different clients overlap in logical time. Distinct by hash(flavour, recorded history).".into(),
-        explanation: "Per call: a returned callee result requires exactly one start and one finish in the target's execution log and the reply must echo the caller's id; a call error allows at most one execution. Linearizability: the bit sets returned by completed calls must be totally ordered by inclusion (a sequential order of the mutations), contain their own contribution, respect real-time order on the logical clock, and every acknowledged mutation must be in the final value. The server must still serve afterwards.".into(),
-        assumptions: vec!["register with commutative unique-bit updates: linearizability reduces to chain + real-time checks (exact for this model)".into(), "single-thread virtual-time leg; RFn/RFnMut/RFnOnce are not driven yet".into()],
+        rule: "one case = one epoch history: a served object (ServerRefMut, ServerSharedMut with spawn false/true) with 1-5 clients (clones used locally and clones transferred to a second endpoint), each running 1-6 calls: &self read, &mut read-suspend-write (0-3 virtual-time suspension points, deliberately not atomic inside), #[no_cancel] variant, suspending &self call, pauses; every call carries a unique id and every mutation contributes a unique bit. Every fourth run drives a remote function instead (RFn with 1-3 cloned callers, RFnMut, RFnOnce; used locally or sent to the other endpoint; provider kept, dropped before the first call or dropped during the calls; arguments that cannot be serialized; callers abandoning calls; connection cut by a sink error, stream error or EOF at a random frame). Non-trivial iff at least two calls of different clients overlap in logical time (rtc) / at least two calls or an unsendable, abandoned or provider-less call (rfn). Distinct by hash(flavour, recorded history).".into(),
+        explanation: "Per call: a returned callee result requires exactly one start and one finish in the target's execution log and the reply must echo the caller's id; a call error allows at most one execution. Linearizability: the bit sets returned by completed calls must be totally ordered by inclusion (a sequential order of the mutations), contain their own contribution, respect real-time order on the logical clock, and every acknowledged mutation must be in the final value. The server must still serve afterwards. Remote functions: every call has an outcome at quiescence (a call whose request cannot be transmitted or whose provider is gone must fail, not stay pending), a returned result belongs to exactly one run that saw exactly the argument passed (hash), an error to at most one, an unsendable call never runs, RFnMut/RFnOnce executions never overlap and an RFnOnce runs at most once.".into(),
+        assumptions: vec!["register with commutative unique-bit updates: linearizability reduces to chain + real-time checks (exact for this model)".into(), "single-thread virtual-time leg".into()],
         exhaustive: false,
         min_nontrivial: ctx.tier.pick(300, 3000),
         extra: BTreeMap::new(),
@@ -460,11 +461,16 @@ fn c12_check(ctx: &Ctx) -> i32 {
 
 fn c19_check(ctx: &Ctx) -> i32 {
     let budget = Duration::from_secs(ctx.tier.pick(30, 360));
-    let agg = shard_runs(ctx, "main", ctx.tier.pick(12_000, 1_000_000), budget, Duration::from_secs(30), Arc::new(|run, seed| rtc::run_one("C19", run, seed)));
+    let mut agg = shard_runs(ctx, "main", ctx.tier.pick(12_000, 1_000_000), budget, Duration::from_secs(20), Arc::new(|run, seed| rtc::run_one("C19", run, seed)));
+    // a run whose thread spins inside one poll with the progress counter frozen: the served loop (or a forwarding
+    // task) busy-loops and starves everything else on the runtime
+    for (phase, run, seed) in agg.spinning.clone() {
+        agg.viols.push((phase, run, seed, crate::evidence::Viol { signature: "C19:server-spins".into(), detail: "the run's thread was busy for the whole watchdog period while no task made progress: a task loops without ever yielding (e.g. a serve loop retrying a receive that fails immediately again and again)".into(), replay: serde_json::json!({"run": run, "seed": seed}) }));
+    }
     let rep = Report {
         level: "exploration",
-        rule: "one case = one run of the C12 rig with 40% of the calls abandoned by their caller after 0-7 polls of the call future (never polled / queued / executing / replying), cancellable and #[no_cancel] &mut methods mixed, concurrent clients, and 0-2 failing calls from a client built from a newer trait version on a separate connection: unknown method, reply above the client's reply limit, request above the server's request limit. Non-trivial iff a cancellation landed after the callee had started or a failing call was injected. Distinct by hash(flavour, recorded history).".into(),
-        explanation: "An abandoned cancellable call must not pass another checkpoint after quiescence; an abandoned #[no_cancel] mutation that started must be in the final value; a fresh &mut call afterwards must be served (lock released, server not wedged); failing calls must fail only themselves: the next call on the same client and serve() must go on. The oversize-reply case is attributed to the known finding only by its exact signature.".into(),
+        rule: "one case = one run of the C12 rig with 40% of the calls abandoned by their caller after 0-7 polls of the call future (never polled / queued / executing / replying; calls with replies of 300-60000 bytes abandoned after 0-39 polls, i.e. while the reply is in transmission and blocked on flow control), cancellable and #[no_cancel] &mut methods mixed, concurrent clients, in 40% of the runs a further client on a connection of its own that is cut (sink error, stream error, EOF at a random frame in the direction of the replies or of the requests) while its large replies are on their way, and 0-2 failing calls from a client built from a newer trait version on a separate connection: unknown method, reply above the client's reply limit, request above the server's request limit. Non-trivial iff a cancellation landed after the callee had started or a failing call was injected. Distinct by hash(flavour, recorded history).".into(),
+        explanation: "An abandoned cancellable call must not pass another checkpoint after quiescence, and not more than one checkpoint after the moment its caller dropped the future (the cancellation travels in zero virtual time, a step of the callee takes 1 ms of it); a run in which tasks keep polling for seconds of wall-clock time without any frame, API event or virtual-time step (livelock, e.g. a serve loop retrying a failing receive) is a violation (C19:server-spins); a cut connection must fail its pending calls and leave the server serving; an abandoned #[no_cancel] mutation that started must be in the final value; a fresh &mut call afterwards must be served (lock released, server not wedged); failing calls must fail only themselves: the next call on the same client and serve() must go on. The oversize-reply case is attributed to the known finding only by its exact signature.".into(),
         assumptions: vec!["checkpoints are virtual-time sleeps inside the served methods".into()],
         exhaustive: false,
         min_nontrivial: ctx.tier.pick(300, 3000),
